@@ -1,6 +1,6 @@
 (* Line-oriented entry point of the executable model: run "cmd sexp" = answer line. *)
-From Coq Require Import String Ascii List Bool Arith NArith.
-From Wrap Require Import Base.Str Base.ListX Syntax.Ast Syntax.Sexp Syntax.Codec Syntax.Print Inst.Model Inst.Proj Pybind.Items Pybind.Gen Pybind.Render Matlab.Ids Matlab.Arity Matlab.Files Xml.Escape Xml.Doc.
+From Coq Require Import String Ascii List Bool Arith NArith ZArith.
+From Wrap Require Import Base.Str Base.ListX Syntax.Ast Syntax.Sexp Syntax.Codec Syntax.Print Inst.Model Inst.Proj Pybind.Items Pybind.Gen Pybind.Render Matlab.Ids Matlab.Arity Matlab.Files Xml.Escape Xml.Doc Runtime.Mx.
 Import ListNotations.
 Open Scope string_scope.
 
@@ -218,6 +218,84 @@ Definition run_literal (x : sexp) : string :=
   | None => "baddecode"
   end.
 
+(* ---- C18 ---- *)
+Definition z_str (z : Z) : string :=
+  match z with
+  | Z0 => "0"
+  | Zpos p => nat_dec (Pos.to_nat p)
+  | Zneg p => "-" ++ nat_dec (Pos.to_nat p)
+  end.
+(* decimal Z from an atom (optional leading -); digits accumulate in Z, no nat detour for big values *)
+Definition d_z (x : sexp) : option Z :=
+  match x with
+  | Atom s =>
+    let fix go (s : string) (acc : Z) : option Z :=
+        match s with
+        | EmptyString => Some acc
+        | String c r => let n := nat_of_ascii c in
+                        if andb (Nat.leb 48 n) (Nat.leb n 57) then go r (acc * 10 + Z.of_nat (n - 48))%Z else None
+        end in
+    match s with
+    | String "-"%char r => option_map Z.opp (go r 0%Z)
+    | _ => go s 0%Z
+    end
+  | _ => None
+  end.
+Fixpoint z_dec_aux (fuel : nat) (z : Z) (acc : string) : string :=
+  match fuel with
+  | O => acc
+  | S f => let acc' := String (ascii_of_nat (48 + Z.to_nat (z mod 10))) acc in
+           if (z <? 10)%Z then acc' else z_dec_aux f (z / 10) acc'
+  end.
+Definition z_dec (z : Z) : string :=
+  if (z <? 0)%Z then "-" ++ z_dec_aux 80 (- z) "" else z_dec_aux 80 z "".
+Definition e_mx (a : mx) : sexp :=
+  SList [Atom (match mx_class a with CUint64 => "uint64" | CInt64 => "int64" | CDouble => "double" | CChar => "char" | COther => "other" end);
+         Atom (nat_dec (mx_m a)); Atom (nat_dec (mx_n a)); SList (map (fun c => Atom (z_dec c)) (mx_cells a));
+         SList (map (fun c => Atom (z_dec c)) (mx_chars a))].
+Definition e_zres (r : mres Z) : sexp :=
+  match r with MOk v => SList [Atom "ok"; Atom (z_dec v)] | MErr e => SList [Atom "error"; Atom (nat_dec e)] end.
+Definition e_lres (r : mres (list Z)) : sexp :=
+  match r with MOk v => SList [Atom "ok"; SList (map (fun c => Atom (z_dec c)) v)]
+          | MErr e => SList [Atom "error"; Atom (nat_dec e)] end.
+(* mx (type value...) -> (array) (unwrapped) *)
+Definition run_mx (x : sexp) : string :=
+  match x with
+  | SList (Atom t :: args) =>
+    match sequence (map d_z args) with
+    | None => "baddecode"
+    | Some zs =>
+      let one := match zs with z :: _ => z | [] => 0%Z end in
+      if String.eqb t "bool" then
+        let a := wrap_bool (negb (one =? 0)%Z) in
+        "ok " ++ print (SList [e_mx a; match unwrap_bool a with MOk b => SList [Atom "ok"; Atom (if b then "1" else "0")]
+                                                    | MErr e => SList [Atom "error"; Atom (nat_dec e)] end])
+      else if String.eqb t "char" then "ok " ++ print (SList [e_mx (wrap_char one); e_zres (unwrap_char (wrap_char one))])
+      else if String.eqb t "uchar" then "ok " ++ print (SList [e_mx (wrap_uchar one); e_zres (unwrap_uchar (wrap_uchar one))])
+      else if String.eqb t "int" then "ok " ++ print (SList [e_mx (wrap_int one); e_zres (unwrap_int (wrap_int one))])
+      else if String.eqb t "size_t" then "ok " ++ print (SList [e_mx (wrap_size_t one); e_zres (unwrap_size_t (wrap_size_t one))])
+      else if String.eqb t "double" then "ok " ++ print (SList [e_mx (wrap_double one); e_zres (unwrap_double (wrap_double one))])
+      else if String.eqb t "string" then "ok " ++ print (SList [e_mx (wrap_string zs); e_lres (unwrap_string (wrap_string zs))])
+      else if String.eqb t "vector" then "ok " ++ print (SList [e_mx (wrap_vector zs); e_lres (unwrap_vector (wrap_vector zs))])
+      else if String.eqb t "matrix" then
+        match zs with
+        | m :: n :: rest =>
+          let m' := Z.to_nat m in let n' := Z.to_nat n in
+          let A := fun i j => nth (i * n' + j) rest 0%Z in     (* row-major on the wire *)
+          let a := wrap_matrix m' n' A in
+          match unwrap_matrix a with
+          | MOk (m2, n2, B) =>
+            "ok " ++ print (SList [e_mx a; SList [Atom (nat_dec m2); Atom (nat_dec n2);
+                                                  SList (flat_map (fun i => map (fun j => Atom (z_dec (B i j))) (seq 0 n2)) (seq 0 m2))]])
+          | MErr e => "ok " ++ print (SList [e_mx a; SList [Atom "error"; Atom (nat_dec e)]])
+          end
+        | _ => "badshape"
+        end
+      else "badtype"
+    end
+  | _ => "badshape"
+  end.
+
 Definition run (line : string) : string :=
   let '(cmd, rest) := split_cmd line EmptyString in
   match read rest with
@@ -233,6 +311,7 @@ Definition run (line : string) : string :=
     else if String.eqb cmd "mlfiles" then run_mlfiles x
     else if String.eqb cmd "xmldoc" then run_xmldoc x
     else if String.eqb cmd "literal" then run_literal x
+    else if String.eqb cmd "mx" then run_mx x
     else if String.eqb cmd "echo" then print x
     else "badcmd"
   end.
